@@ -505,6 +505,7 @@ impl<T: Elem + SatisfyTraits<Tr>, M: MX, Tr: TrX + ?Sized> World<T, M, Tr> {
             Edge::Cap(api, call, n) => self.do_cap(api, call, ix(n), out),
             Edge::CloneVec { then } => self.do_clone(then, out),
             Edge::Huge { op } => self.do_huge(op, out),
+            Edge::UserValue { op, i } => self.do_user_value(op, i as usize, out),
             Edge::DropVec => self.do_drop_vec(out),
             Edge::Relocate { slot, then } => self.do_relocate(slot, then, out),
             Edge::CloneFrom { dst, then } => self.do_clone_from(dst, then, out),
